@@ -9,6 +9,7 @@ observation, the wall-clock time is recorded; (C) the order of the checks at the
 (error argument, call limit, time limit) against the gate model."""
 from .common import *
 from . import c16
+sys.set_int_max_str_digits(0)
 
 LIMITS = {"search": 1000, "ud_calls": 5000, "size": 50_000_000, "time_ms": 3000, "depth": 2000, "recursion": 100000}
 WATCHDOG = 25.0
@@ -149,6 +150,72 @@ def run(chk):
     chk.coverage["slowest_ms"] = {"ms": worst[0], "program": worst[1]}
 
     phases["B"] = round(time.time() - chk.t0, 1)
+    # ------------------------------------------------------------------ (D) numeric loops of int.rs under the search limit
+    import math
+    Lh = LIMITS["search"]
+    dcases = []   # (expr, expected dump | "ERR" | "VIOL", model line or None)
+    ns = [0, 1, 5, 20, 60, 100, 999, 1000, 1001, 1500, 10**6, 2**70]
+    for _ in range(150 if quick else 1500):
+        n = rng.choice(ns)
+        k = rng.choice([0, 1, 2, n // 2, n - 1, n, n + 1, -1, 999, 1000, 1001, 1002, 5000])
+        if k < 0 or k > n:
+            want = "ERR"
+        elif k > Lh:
+            want = "VIOL"      # the loop runs k times, a permit each (int.rs:326)
+        else:
+            want = c16.dump(math.comb(n, k))
+        dcases.append((f"binom({lit(n)}, {lit(k)})", want, f"int b.binom {n} {k}" if 0 <= n <= 300 else None))
+        ks = [rng.choice([0, 1, 2, 3, 10, 400, 600, 1000, 1001, 2**64]) for _ in range(rng.choice([1, 2, 3]))]
+        srt = sorted(ks, reverse=True)
+        work = sum(srt[1:])
+        if len(ks) <= 1:
+            wantm = c16.dump(1)
+        elif work > Lh:
+            wantm = "VIOL"     # one permit per factor of every part but the largest (int.rs:373-375)
+        else:
+            m = math.factorial(sum(ks)) if sum(ks) < 5000 else None
+            if m is None:
+                m = 1
+                acc = srt[0]
+                for q in srt[1:]:
+                    m *= math.comb(acc + q, q)
+                    acc += q
+            else:
+                for q in ks:
+                    m //= math.factorial(q)
+            wantm = c16.dump(m)
+        dcases.append((f"multinom([{', '.join(lit(q) for q in ks)}])", wantm, None))
+        x = rng.choice([0, 1, 7, 255, 10**30, 2**64, 10**300, 2**4000 + 1])
+        base = rng.choice([-1, 0, 1, 2, 10, 16, 2**64])
+        if base < 2:
+            wantd = "ERR"      # the loop would not shrink its argument (repaired in ac58086)
+        else:
+            ds, t = [], x
+            while t:
+                ds.append(t % base)
+                t //= base
+            wantd = c16.dump(ds)
+        dcases.append((f"digits({lit(x)}, {lit(base)})", wantd, f"int b.digits {x} {base}" if x < 2**70 else None))
+    dres = run_timed([f"let a = {e};" for e, _, _ in dcases], LIMITS)
+    dmod = run_model([m or "ping" for _, _, m in dcases])
+    for (e, want, mline), r, mo in zip(dcases, dres, dmod):
+        chk.evaluations += 1
+        o = outcome(r)
+        got = c16.canon_impl(o)
+        fn = e.split("(")[0]
+        chk.count(f"D:{fn}:" + (got if got in ("ERR", "VIOL", "HANG", "PANIC") else "value"))
+        chk.nontrivial.add(e)
+        if got != want:
+            kind = "hang" if got == "HANG" else "panic" if got == "PANIC" else "wrong"
+            chk.violation(f"numeric:{fn}:{kind}", f"`let a = {e};` under search limit {Lh}: {o[:200]}; expected {want[:200]}",
+                          {"op": "gen", "f": "timed_run", "src": f"let a = {e};", "get": ["a"], "limits": LIMITS, "expected": want, "got": o})
+        elif mline and mo != "bad-op" and want not in ("VIOL",):
+            from .c14 import model_to_dump
+            gm = model_to_dump(mo)
+            if gm != (want if want != "ERR" else "ERR"):
+                chk.violation(f"tie:numeric:{fn}", f"C14 model on `{mline}` answers {mo[:120]}, implementation and oracle {want[:120]}",
+                              {"model": mline, "model_out": mo, "impl": o}, no_input=True)
+    phases["D"] = round(time.time() - chk.t0, 1)
     # ------------------------------------------------------------------ (C) the gate at the beginning of a user call
     gate = [
         # (program, limits, model request, what the model's answer means for the program)
@@ -188,7 +255,7 @@ def run(chk):
     return chk.finish(rule="(A) generator pipelines under search limits 0..40, outcome compared with the model's permit accounting; "
                            "(B) adversarial programs (infinite / never-accepting sources x consumers with huge counts, numeric and "
                            "searching builtins) under search=1000, ud_calls=5000, size=50MB, time=3s in a watched child; "
-                           "(C) check order at the beginning of a user call; non-trivial = distinct programs (A: at least 3 operations)")
+                           "(C) check order at the beginning of a user call; (D) binom / multinom / digits of int.rs against Python's int and the rule 'one permit per iteration'; non-trivial = distinct programs (A: at least 3 operations)")
 
 
 def replay(path):
